@@ -27,6 +27,12 @@ class WireManagerBase(abc.ABC):
         for wire in self.wires:
             wire.grading.length = wire.length
 
+    def reset(self) -> None:
+        """Forgets everything that grade() created so that
+        grading can be done again from scratch"""
+        for wire in self.wires:
+            wire.grading = Grading(wire.length)
+
     @abc.abstractmethod
     def grade(self) -> None:
         """Convert data from user or neighbour to Grading objects on wires"""
@@ -101,6 +107,12 @@ class WireChopManager(WireManagerBase):
 
         super().update()
 
+    def reset(self) -> None:
+        # user's chops stay
+        self.grading = Grading(0)
+
+        super().reset()
+
     def grade(self) -> None:
         self.update()
 
@@ -128,6 +140,12 @@ class WirePropagateManager(WireManagerBase):
 
     def update(self):
         super().update()
+
+    def reset(self) -> None:
+        # chops were copied from neighbours
+        self.chops = []
+
+        super().reset()
 
     def grade(self):
         """Checks each wire whether their coincidents (wires from other blocks)
